@@ -25,7 +25,23 @@ fn usage() -> ! {
     std::process::exit(2)
 }
 
+#[cfg(all(target_os = "linux", not(miri)))]
+fn die_with_parent() {
+    // a worker whose supervisor is gone must not keep running (a seeded endless loop would spin forever)
+    extern "C" {
+        fn prctl(option: i32, arg2: u64, arg3: u64, arg4: u64, arg5: u64) -> i32;
+    }
+    const PR_SET_PDEATHSIG: i32 = 1;
+    const SIGKILL: u64 = 9;
+    unsafe {
+        let _ = prctl(PR_SET_PDEATHSIG, SIGKILL, 0, 0, 0);
+    }
+}
+#[cfg(not(all(target_os = "linux", not(miri))))]
+fn die_with_parent() {}
+
 fn main() {
+    die_with_parent();
     let argv: Vec<String> = std::env::args().collect();
     if argv.len() < 2 {
         usage();
